@@ -137,6 +137,8 @@ def _new_crop(case, root):
         kw = dict(name=NAME, parent_dir=root, num_batches=case["nb"])
     if f is None:
         return xyzpy.Crop(fn=fn, shuffle=case["shuffle"], **kw), f
+    if case["farmer"] == "harvester":
+        f.full_ds          # the harvester has looked at its data: the farmer stored with the crop holds that snapshot
     c = f.Crop(**kw)
     c.shuffle = case["shuffle"]
     return c, f
@@ -174,6 +176,11 @@ def _setup(case, root):
         if victim == "sow":
             return None
         crop = _sow(case, root)
+        if case["farmer"] == "harvester":
+            # another session merges more data into the harvester's file AFTER the crop was sown
+            fn2, h2 = _mk(case, root)
+            h2.harvest_combos({"a": [102]}, verbosity=0)
+            h2._full_ds.close()
         if victim in ("reap", "resow"):
             crop.grow_missing()
         elif case["grown"]:
@@ -270,7 +277,7 @@ def _naive(case, root):
         return ("raised", type(e).__name__)
     d = _judge_value(case, res, sampled)
     if d is None and case["farmer"] == "harvester":
-        d = _harvester_file_has(root, [100, 101] + list(range(1, case["n"] + 1)), case.get("engine") or "h5netcdf")
+        d = _harvester_file_has(root, _earlier(case) + list(range(1, case["n"] + 1)), case.get("engine") or "h5netcdf")
     return ("exact", None) if d is None else ("wrong", d)
 
 
@@ -292,6 +299,11 @@ def _stragglers(case, root):
             except BaseException:      # noqa
                 pass
     return n
+
+
+def _earlier(case):
+    """Labels merged into the harvester's file before the victim operation (by earlier campaigns / other sessions)."""
+    return [100, 101] + ([102] if case["victim"] != "sow" else [])
 
 
 def _needs_resow(case, root):
@@ -330,7 +342,7 @@ def _recover(case, root):
         return ("raised", "%s: %s | %s" % (type(e).__name__, str(e)[:200], traceback.format_exc(limit=-3)[-600:]))
     d = _judge_value(case, res, sampled)
     if d is None and case["farmer"] == "harvester":
-        d = _harvester_file_has(root, [100, 101] + list(range(1, case["n"] + 1)), case.get("engine") or "h5netcdf")
+        d = _harvester_file_has(root, _earlier(case) + list(range(1, case["n"] + 1)), case.get("engine") or "h5netcdf")
     if d is None and os.path.exists(cropkit.crop_dir(root, NAME)):
         d = "crop directory still exists after the recovered reap"
     return ("exact", None) if d is None else ("wrong", d)
@@ -433,7 +445,7 @@ def run_strace_case(ctx, case):
         state = crash.snap(root)
         bad = []
         if case["farmer"] == "harvester":
-            st3, d3 = crash.run_forked(lambda: _harvester_file_has(root, [100, 101], case.get("engine") or "h5netcdf"))
+            st3, d3 = crash.run_forked(lambda: _harvester_file_has(root, _earlier(case), case.get("engine") or "h5netcdf"))
             ctx.count("harvester_file_checked")
             if st3 != "ok" or d3 is not None:
                 bad.append(("harvester-data-survives", "after SIGKILL at %s #%d on the data file: %s" % (name, k, d3 if st3 == "ok" else (st3, d3))))
@@ -492,7 +504,7 @@ def run_case(ctx, case):
         bad = []
         # (3) harvester data survives the crash itself
         if case["farmer"] == "harvester":
-            st3, d3 = crash.run_forked(lambda: _harvester_file_has(root, [100, 101], case.get("engine") or "h5netcdf"))
+            st3, d3 = crash.run_forked(lambda: _harvester_file_has(root, _earlier(case), case.get("engine") or "h5netcdf"))
             ctx.count("harvester_file_checked")
             if st3 != "ok" or d3 is not None:
                 bad.append(("harvester-data-survives", "after a kill before %s: %s" % (evname, d3 if st3 == "ok" else (st3, d3))))
